@@ -17,6 +17,16 @@ def syncPlan (seq : Nat) : List (Key × Rec) → List Key → Nat → List (Key 
       let r := syncPlan seq idx t pos
       (r.1, .del k :: r.2.1, r.2.2)
 
+/-- the data-file writes of sync's loop, in order -/
+def planW (seq : Nat) : List (Key × Rec) → List Key → Nat → List Effect
+  | _, [], _ => []
+  | idx, k :: t, pos =>
+    match ilookup k idx with
+    | some rc =>
+      .writeDat seq pos (rc.data.getD []) ::
+        planW seq (iset k { rc with pos := u32 pos, seq := seq } idx) t (pos + (rc.data.getD []).length)
+    | none => planW seq idx t pos
+
 /-- the parts of the state the sync loop leaves alone -/
 def syncRest (seq : Nat) (db : DB) :=
   (db.fs.idx0, db.fs.idx1, db.fs.log, (fun t => if t = seq then none else dlookup t db.fs.dats),
@@ -30,13 +40,14 @@ theorem syncKey_exact_some (d : DB) (bidx : Bytes) (k : Key) (rc : Rec) (v f : B
     ∃ d', syncKey (d, bidx) k = (d', bidx ++ encRec k { rc with pos := u32 d.lastPos, seq := d.dataSeq }) ∧
       d'.index = iset k { rc with pos := u32 d.lastPos, seq := d.dataSeq } d.index ∧
       dlookup d.dataSeq d'.fs.dats = some (f ++ v) ∧ d'.lastPos = d.lastPos + v.length ∧
-      syncRest d.dataSeq d' = syncRest d.dataSeq d := by
+      syncRest d.dataSeq d' = syncRest d.dataSeq d ∧
+      d'.effs = d.effs ++ [("qdb.sync:data-written", .writeDat d.dataSeq d.lastPos v)] := by
   obtain ⟨rd, rs, rp, rl, rfl'⟩ := rc
   simp only at hd hnc
   subst hd
   refine ⟨{ emit d "qdb.sync:data-written" (.writeDat d.dataSeq d.lastPos v) with
       lastPos := d.lastPos + v.length,
-      index := iset k ⟨some v, d.dataSeq, u32 d.lastPos, rl, rfl'⟩ d.index }, ?_, ?_, ?_, ?_, ?_⟩
+      index := iset k ⟨some v, d.dataSeq, u32 d.lastPos, rl, rfl'⟩ d.index }, ?_, ?_, ?_, ?_, ?_, rfl⟩
   · unfold syncKey
     simp only [hf, hl]
     unfold syncRec
@@ -73,38 +84,44 @@ theorem syncFold_plan (ks : List Key) (d : DB) (bidx f : Bytes) (hc : Cached d)
       d'.index = (syncPlan d.dataSeq d.index ks d.lastPos).1 ∧
       dlookup d.dataSeq d'.fs.dats = some (f ++ (syncPlan d.dataSeq d.index ks d.lastPos).2.2) ∧
       d'.lastPos = d.lastPos + (syncPlan d.dataSeq d.index ks d.lastPos).2.2.length ∧
-      syncRest d.dataSeq d' = syncRest d.dataSeq d := by
+      syncRest d.dataSeq d' = syncRest d.dataSeq d ∧
+      (∃ ws, d'.effs = d.effs ++ ws ∧ ws.map (·.2) = planW d.dataSeq d.index ks d.lastPos) := by
   induction ks generalizing d bidx f with
-  | nil => exact ⟨d, by simp [syncPlan, encLog], rfl, by simp [syncPlan, hfile], by simp [syncPlan], rfl⟩
+  | nil => exact ⟨d, by simp [syncPlan, encLog], rfl, by simp [syncPlan, hfile], by simp [syncPlan], rfl,
+      [], by simp, rfl⟩
   | cons k t ih =>
     cases hl : ilookup k d.index with
     | none =>
       have hstep : syncKey (d, bidx) k = (d, bidx ++ encDel k) := by
         unfold syncKey; simp only [hc.1, hl]
-      obtain ⟨d', h1, h2, h3, h4, h5⟩ := ih d (bidx ++ encDel k) f hc hfile hpos
-      refine ⟨d', ?_, ?_, ?_, ?_, h5⟩
+      obtain ⟨d', h1, h2, h3, h4, h5, h6⟩ := ih d (bidx ++ encDel k) f hc hfile hpos
+      refine ⟨d', ?_, ?_, ?_, ?_, h5, ?_⟩
       · simp only [List.foldl_cons, hstep, h1, syncPlan, hl]
         simp [encLog, encEntry, List.append_assoc]
       · simp only [syncPlan, hl]; exact h2
       · simp only [syncPlan, hl]; exact h3
       · simp only [syncPlan, hl]; exact h4
+      · simp only [planW, hl]; exact h6
     | some rc =>
       have hrc := allCached_lookup hc.2 k rc hl
       cases hd : rc.data with
       | none => have := hrc.1; simp [hd] at this
       | some v =>
-        obtain ⟨d1, s1, s2, s3, s4, s5⟩ := syncKey_exact_some d bidx k rc v f hc.1 hl hd hrc.2 hfile hpos
+        obtain ⟨d1, s1, s2, s3, s4, s5, s6⟩ := syncKey_exact_some d bidx k rc v f hc.1 hl hd hrc.2 hfile hpos
         have hc1 : Cached d1 := by
           have := (syncKey_cached (d, bidx) k hc).cached
           rw [s1] at this
           exact this
         have hds : d1.dataSeq = d.dataSeq := syncRest_dataSeq s5
-        obtain ⟨d', h1, h2, h3, h4, h5⟩ := ih d1 (bidx ++ encRec k { rc with pos := u32 d.lastPos, seq := d.dataSeq })
+        obtain ⟨d', h1, h2, h3, h4, h5, ws, h6, h7⟩ := ih d1 (bidx ++ encRec k { rc with pos := u32 d.lastPos, seq := d.dataSeq })
           (f ++ v) hc1 (by rw [hds]; exact s3) (by rw [s4, hpos]; simp)
         have hv : rc.data.getD [] = v := by simp [hd]
-        rw [hds, s2, s4] at h1 h2 h3 h4
+        rw [hds, s2, s4] at h1 h2 h3 h4 h7
         rw [hds] at h5
-        refine ⟨d', ?_, ?_, ?_, ?_, h5.trans s5⟩
+        refine ⟨d', ?_, ?_, ?_, ?_, h5.trans s5,
+          ("qdb.sync:data-written", .writeDat d.dataSeq d.lastPos v) :: ws, by rw [h6, s6]; simp, ?_⟩
+        rotate_right
+        · simp only [planW, hl, hv, List.map_cons]; rw [h7]
         · simp only [List.foldl_cons, s1, h1, syncPlan, hl, hv]
           simp [encLog, encEntry, List.append_assoc]
         · simp only [syncPlan, hl, hv]; exact h2
